@@ -36,8 +36,9 @@ ASSUMPTIONS = ["task graphs are acyclic (a cyclic pre/post graph makes expand_ca
                "oracle accepts any of their return values there",
                "collection lookup of the requested names and CLI parsing are C10's / C01's subject: the model's request is "
                "the (task, kwargs) list that Executor.normalize reads",
-               "effective_args_dedupe_partial: proved only for call lists in which calls of one task spell out the same "
-               "parameters and distinct tasks differ in name or code; outside that, see the known findings"]
+               "effective_args_dedupe: proved for call lists in which distinct tasks differ in name or code (otherwise: known "
+               "finding C04-task-eq-by-code) and every call can be bound to its task's signature (otherwise executing it raises "
+               "TypeError)"]
 
 INTS = [0, 1]
 STRS = ["a", "b"]
@@ -340,7 +341,8 @@ def model_line(case, reqkw):
     for i, t in enumerate(case["tasks"]):
         def calls(lst):
             return ",".join("%d/%s/%s" % (j, enc_pos(pos), enc_kw(kw)) for j, pos, kw in lst)
-        ts.append("%d:%d:%s:%s" % (cls[i], keyc[i], calls(t["pre"]), calls(t["post"])))
+        sig = "+".join((enc_chars(pn) + "!") if pd is None else "%s=%s" % (enc_chars(pn), enc_val(pd)) for pn, pd in t["params"])
+        ts.append("%d:%d:%s:%s:%s" % (cls[i], keyc[i], sig, calls(t["pre"]), calls(t["post"])))
     req = ",".join("%d/%s" % (i, enc_kw([(k, canon_val(v)) for k, v in kw.items()])) for i, kw in reqkw)
     dflt = case.get("default")
     return "exec %d %s %s %s" % (1 if case["dedupe"] else 0, "-" if dflt is None else str(dflt), ";".join(ts) or "-", req or "-")
@@ -432,21 +434,18 @@ def oracle(case, r):
     got = [(tid, b) for tid, b, _p, _k in r["log"]]
     wantb = [(e[0], e[1]) for e in want]
     cls = classes(case)
-    lit = lambda e: (e[2][0], sorted(e[2][1].items()))  # noqa: E731
-    # is this a case on which the two known divergences (literal kwargs, Task.__eq__) cannot show?  (used only to
-    # prefer the most telling failing input when there is a choice)
-    r["pure"] = (not case["dedupe"]) or [(e[0], e[1]) for e in first_occurrences(full, lambda e: (cls[e[0]], lit(e)))] == wantb
+    # what the code is known to do instead where Task.__eq__ cannot tell two Task objects apart (known finding
+    # C04-task-eq-by-code): first occurrence under (name+code class, bound arguments)
+    known_alt = [(e[0], e[1]) for e in first_occurrences(full, lambda e: (cls[e[0]], sorted(e[1].items())))]
+    # is this a case on which that known divergence cannot show?  (used only to prefer the most telling failing input)
+    r["pure"] = (not case["dedupe"]) or known_alt == wantb
+    # statistics only: would a comparison of the LITERAL args/kwargs (the rule before the repair of #22/#30) run more?
+    r["respelled"] = case["dedupe"] and len(first_occurrences(
+        full, lambda e: (e[0], e[2][0], sorted(e[2][1].items())))) != len(want)
     if got != wantb:
         why = "executed %s, the property demands %s" % (got, wantb)
-        if case["dedupe"]:
-            alt = {
-                "[eff-args]": first_occurrences(full, lambda e: (e[0], lit(e))),
-                "[task-eq]": first_occurrences(full, lambda e: (cls[e[0]], sorted(e[1].items()))),
-                "[eff-args+task-eq]": first_occurrences(full, lambda e: (cls[e[0]], lit(e))),
-            }
-            for tag, l in alt.items():
-                if got == [(e[0], e[1]) for e in l]:
-                    return tag + " " + why
+        if case["dedupe"] and got == known_alt:
+            return "[task-eq] " + why
         return why
     if r["results"] is not None:
         # keys of the mapping are Task objects; objects wrapping one function under one name are one dict key
@@ -463,9 +462,7 @@ def oracle(case, r):
 
 
 KNOWN_TAGS = {
-    "C04-effective-args": ("[eff-args]", "[eff-args+task-eq]"),
-    "C04-effective-args-call": ("[eff-args]", "[eff-args+task-eq]"),
-    "C04-task-eq-by-code": ("[task-eq]", "[eff-args+task-eq]"),
+    "C04-task-eq-by-code": ("[task-eq]",),
 }
 
 
@@ -646,7 +643,7 @@ def run(ctx):
     rng = ctx.rng
     drv = LeanDriver("drv_exec")
     cases = []
-    # 1. design-time witnesses (DESIGN section 4 #22, #30) and the twin-task witness first
+    # 1. the witnesses of the repaired findings (DESIGN section 4 #22, #30) and the twin-task witness first
     cases += [dict(c) for c in WITNESSES]
     # 2. exhaustive small scope (parameterless, plain references)
     big = ctx.thorough or ctx.escalated
@@ -721,7 +718,7 @@ def run(ctx):
             ilog, ires = canon_impl(r)
             mlog, mres, hyp = canon_model(m)
             out.traces += 1
-            out.hist["theorem_hyp_effective_args:" + hyp] += 1
+            out.hist["theorem_hyp_effective_args_dedupe:" + hyp] += 1
             if "?" in ilog:  # compare the order of task identities only
                 ilog = ",".join(x.split("/")[0] for x in ilog.split(",") if x)
                 mlog = ",".join(x.split("/")[0] for x in mlog.split(",") if x)
@@ -729,6 +726,8 @@ def run(ctx):
             if ilog != mlog or (ires != "-" and ires != mres):
                 out.disagree(c, {"session": k + 1, "log": ilog, "results": ires}, {"log": mlog, "results": mres})
         why = oracle(cs, r)
+        if r.get("respelled"):
+            out.hist["same_effective_args_spelled_differently(dedupe on)"] += 1
         if why:
             out.hist["oracle:" + (why.split(" ")[0] if why.startswith("[") else "other")] += 1
             fails.append((why.startswith("["), bool(r.get("pure")), c, ("session %d: " % (k + 1) if k else "") + why))
@@ -760,8 +759,9 @@ WITNESSES = [W22, W30, WTWIN]
 LEVEL_TEXT = ("Lean 4 proof (expand_dfs, pre_before_post_after, args_exact, dedupe_first_occurrence, nodedupe_runs_all, "
               "results_last) that for every finite pre/post tree, request list and dedupe flag the modelled Executor runs the "
               "depth-first expansion in request order, skips exactly the invocations equal (Call.__eq__) to an earlier one, and "
-              "returns each executed task's last result; effective_args_dedupe_partial relates Call.__eq__ to 'same task, same "
-              "bound arguments' under an explicit hypothesis (two counterexample theorems show it is needed: known findings). "
+              "returns each executed task's last result; effective_args_dedupe shows that Call.__eq__ IS 'same task, same bound "
+              "arguments (defaults applied)' for bindable calls of tasks that differ in name or code (a counterexample theorem "
+              "shows the latter is needed: known finding; the pre-repair literal rule survives as a pinned counterexample). "
               "The model is tied to invoke.executor / invoke.tasks on every run by a differential check against the real "
               "Executor.execute (exhaustive small scope + random graphs with parameters, four request forms incl. the real "
               "Parser and Program) and an independent recursive reference oracle")
